@@ -4,6 +4,10 @@ package main
 
 import (
 	"fmt"
+	"github.com/mandykoh/prism/adobergb"
+	"github.com/mandykoh/prism/displayp3"
+	"github.com/mandykoh/prism/prophotorgb"
+	"github.com/mandykoh/prism/srgb"
 	"image"
 	"image/color"
 	"image/draw"
@@ -151,6 +155,12 @@ func init() {
 					}
 					if lin.R > lin.A || lin.G > lin.A || lin.B > lin.A {
 						c.res.fail(Failure{Class: "C14:" + s.name + ":premultiplied", Desc: fmt.Sprintf("linearising a valid premultiplied %T gave channel > alpha", in), Input: map[string]interface{}{"space": s.name, "colour": fmt.Sprintf("%T%v", in, in)}, Got: fmt.Sprint(lin), Want: "channels <= alpha"})
+					}
+					// the encode side with the same values taken as linear colours: whatever the dynamic type, the
+					// alpha written is the alpha RGBA() reports
+					if enc := encodeColorFns[s.name](in); enc.A != uint16(a16) {
+						c.res.fail(Failure{Class: "C14:" + s.name + ":encode-alpha-type", Desc: fmt.Sprintf("EncodeColor on a translucent %T does not keep its alpha", in),
+							Input: map[string]interface{}{"space": s.name, "colour": fmt.Sprintf("%T%v", in, in)}, Got: fmt.Sprint(enc.A), Want: fmt.Sprint(a16)})
 					}
 				}
 			}
@@ -350,6 +360,8 @@ func quantRef(v float32, m int) uint32 {
 	}
 	return uint32(float32(v*float32(m) + 0.5))
 }
+
+var encodeColorFns = map[string]func(color.Color) color.RGBA64{"srgb": srgb.EncodeColor, "adobergb": adobergb.EncodeColor, "prophotorgb": prophotorgb.EncodeColor, "displayp3": displayp3.EncodeColor}
 
 // a colour type the library cannot know, translucent and validly premultiplied
 type translucentCustom struct{ v, a uint16 }
